@@ -1,6 +1,8 @@
 package rules
 
 import (
+	"fmt"
+	"go/types"
 	"strings"
 
 	"golang.org/x/tools/go/ssa"
@@ -11,7 +13,7 @@ import (
 func init() { Registry["C09"] = checkC09 }
 
 func checkC09(p *core.Prog, r *core.Report) {
-	r.Explanation = "Decides structural necessary conditions of exact log shipping: (R1) ReplicationBufferQueue.Pop returns success only when the item it hands out continues the cursor (fresh/recycled cursor: item.seq - cursor.seq == 1, or the first item, or an unset cursor; live cursor: item.seq == cursor.seq before advancing); every other path returns a non-nil error ('out of buf'), so a recycled item under a lagging cursor is never silently followed; (R2) handleInitSync answers an unknown position with ERR_NOT_FOUND unless it is exactly the manager's current position, and refuses ids with file index 0; (R3) the follower reacts to ERR_NOT_FOUND by zeroing its position and re-requesting a full transfer; (R4) Aof.PushLock publishes every record to the ring after the file write attempt on every path, taking the ring mutex before releasing the append mutex (file order = ring order); (R5) ReplicationClient.Process hands every decoded record to its three pipelines (replay, append, re-publish) exactly once each in that order, and every exit sends the nil terminator to all three; (R6) the full-transfer bound: with an empty ring the transfer stops one past the last persisted record (offset + 1), and sendFiles stops at the first record at or past the bound. NOT decided: ring overflow behaviour under slow followers, reconnect races, convergence of snapshots."
+	r.Explanation = "Decides structural necessary conditions of exact log shipping: (R1) ReplicationBufferQueue.Pop returns success only when the item it hands out continues the cursor (fresh/recycled cursor: item.seq - cursor.seq == 1, or the first item, or an unset cursor; live cursor: item.seq == cursor.seq before advancing); every other path returns a non-nil error ('out of buf'), so a recycled item under a lagging cursor is never silently followed; (R2) handleInitSync answers an unknown position with ERR_NOT_FOUND unless it is exactly the manager's current position, and refuses ids with file index 0; (R3) the follower reacts to ERR_NOT_FOUND by zeroing its position and re-requesting a full transfer; (R4) Aof.PushLock publishes every record to the ring after the file write attempt on every path, taking the ring mutex before releasing the append mutex (file order = ring order); (R5) ReplicationClient.Process hands every decoded record to its three pipelines (replay, append, re-publish) exactly once each in that order, and every exit sends the nil terminator to all three; (R6) the full-transfer bound: with an empty ring the transfer stops one past the last persisted record (offset + 1), and sendFiles stops at the first record at or past the bound. (R7) the follower's receive ring is at least two buffers larger than each pipeline queue's capacity, so a record still queued is never overwritten. NOT decided: ring overflow behaviour under slow followers, reconnect races, convergence of snapshots."
 	r.Assumptions = []string{"Go type checker and go/ssa are correct for /repo"}
 	c09R1(p, r)
 	c09R2(p, r)
@@ -19,6 +21,7 @@ func checkC09(p *core.Prog, r *core.Report) {
 	c09R4(p, r)
 	c09R5(p, r)
 	c09R6(p, r)
+	c09R7(p, r)
 }
 
 func c09R1(p *core.Prog, r *core.Report) {
@@ -29,7 +32,9 @@ func c09R1(p *core.Prog, r *core.Report) {
 		return
 	}
 	ex := core.NewExplorer(p, core.Hooks{
-		Track: func(x *core.X, a core.Atom) bool { return strings.Contains(a.String(), ".seq") || strings.Contains(a.String(), "pollCount") },
+		Track: func(x *core.X, a core.Atom) bool {
+			return strings.Contains(a.String(), ".seq") || strings.Contains(a.String(), "pollCount")
+		},
 		Exit: func(x *core.X, rets []core.Expr) {
 			if len(rets) != 1 || rets[0].S != "nil" {
 				return
@@ -324,7 +329,9 @@ func c09R6(p *core.Prog, r *core.Report) {
 	if outer := mustFunc(p, r, "server.(*ReplicationServer).sendFiles"); outer != nil {
 		for _, cb := range outer.AnonFuncs {
 			ex := core.NewExplorer(p, core.Hooks{
-				Track: func(x *core.X, a core.Atom) bool { return strings.Contains(a.String(), "AofIndex") || strings.Contains(a.String(), "AofOffset") },
+				Track: func(x *core.X, a core.Atom) bool {
+					return strings.Contains(a.String(), "AofIndex") || strings.Contains(a.String(), "AofOffset")
+				},
 				Exit: func(x *core.X, rets []core.Expr) {
 					if len(rets) != 2 || rets[0].S != "false" {
 						return
@@ -344,6 +351,80 @@ func c09R6(p *core.Prog, r *core.Report) {
 				},
 			})
 			ex.Run(cb, nil)
+		}
+	}
+}
+
+// c09R7: the follower's reader decodes records into a fixed ring of receive
+// buffers and hands *pointers* to its three pipelines through bounded queues;
+// a buffer is reused after ring-size further records. A record handed over is
+// still owned by a pipeline while it sits in that pipeline's queue or in the
+// consumer's hand, i.e. up to capacity+1 records per pipeline are outstanding
+// when the reader blocks. The buffer being refilled must not be one of them:
+// ring size >= queue capacity + 2 for each pipeline queue.
+func c09R7(p *core.Prog, r *core.Report) {
+	const rule = "C09/R7"
+	r.Rule(rule, "follower receive ring: len(rbufs) >= cap(queue)+2 for each of the three pipeline queues (a record still queued is never overwritten by a later one)", 3)
+	fn := mustFunc(p, r, "server.NewReplicationClient")
+	if fn == nil {
+		return
+	}
+	sizes := map[string]int64{}
+	pos := map[string]string{}
+	for _, b := range fn.Blocks {
+		for _, ins := range b.Instrs {
+			st, ok := ins.(*ssa.Store)
+			if !ok {
+				continue
+			}
+			k, ok := storeKey(st.Addr)
+			if !ok || k.Type != "server.ReplicationClient" {
+				continue
+			}
+			var sz ssa.Value
+			switch v := st.Val.(type) {
+			case *ssa.MakeSlice:
+				sz = v.Len
+			case *ssa.MakeChan:
+				sz = v.Size
+			case *ssa.Slice:
+				// make([]T, N) with constant N is lowered to new [N]T + slice
+				if al, ok := v.X.(*ssa.Alloc); ok {
+					if pt, ok := al.Type().Underlying().(*types.Pointer); ok {
+						if at, ok := pt.Elem().Underlying().(*types.Array); ok {
+							sizes[k.Field] = at.Len()
+							pos[k.Field] = p.InstrPos(ins)
+						}
+					}
+				}
+				continue
+			default:
+				continue
+			}
+			if c, ok := sz.(*ssa.Const); ok && c.Value != nil {
+				sizes[k.Field] = c.Int64()
+				pos[k.Field] = p.InstrPos(ins)
+			} else {
+				sizes[k.Field] = -1
+				pos[k.Field] = p.InstrPos(ins)
+			}
+		}
+	}
+	ring, ok := sizes["rbufs"]
+	if !ok || ring < 0 {
+		r.Undecide(rule, "server.NewReplicationClient: receive ring size", p.Pos(fn.Pos()), "ring size is not a constant make() in the constructor")
+		return
+	}
+	for _, q := range []string{"replayQueue", "aofQueue", "pushQueue"} {
+		c, ok := sizes[q]
+		key := "server.NewReplicationClient: " + q
+		switch {
+		case !ok || c < 0:
+			r.Undecide(rule, key, p.Pos(fn.Pos()), "queue capacity is not a constant make() in the constructor")
+		case ring >= c+2:
+			r.Hold(rule, key, pos[q], fmt.Sprintf("ring %d >= capacity %d + 2", ring, c))
+		default:
+			r.Violate(rule, key, pos[q], fmt.Sprintf("queue capacity %d with a receive ring of %d buffers: when this pipeline stalls the reader refills a buffer that is still queued, the follower appends/replays a later record twice and loses the earlier one", c, ring), nil)
 		}
 	}
 }
